@@ -2153,6 +2153,9 @@ bool DTDScanner::scanEntityLiteral(XMLBuffer& toFill)
         if ((nextCh == quoteCh)
         &&  (fReaderMgr->getCurrentReaderNum() == orgReader))
         {
+            // a leading surrogate must not be the last character of the literal
+            if (gotLeadingSurrogate)
+                fScanner->emitError(XMLErrs::Expected2ndSurrogateChar);
             break;
         }
 
